@@ -28,7 +28,8 @@ def Cfg.real : Cfg := { size := Gen.DEFER_QUEUE_SIZE }
 at least 4 (room for one 3-slot entry below the `size − 2` threshold), less than 2^64 -/
 def Cfg.WF (c : Cfg) : Prop := ∃ k, c.size = 2 ^ k ∧ 2 ≤ k ∧ k < 64
 
-theorem Cfg.real_wf : Cfg.real.WF := ⟨12, by decide, by decide, by decide⟩
+theorem Cfg.real_wf : Cfg.real.WF :=
+  ⟨Nat.log2 Gen.DEFER_QUEUE_SIZE, DEFER_QUEUE_SIZE_pow2, by decide +kernel, by decide +kernel⟩
 theorem Cfg.real_mask : Gen.DEFER_QUEUE_MASK = Cfg.real.size - 1 := by decide
 
 theorem Cfg.WF.ge4 {c : Cfg} (h : c.WF) : 4 ≤ c.size := by
